@@ -1123,6 +1123,8 @@ impl ProtocolState {
 
     fn is_connect_in_queue(&self) -> bool {
         self.high_priority_operation_queue.iter().any(|id| self.is_connect_packet(*id))
+            || self.current_operation.map_or(false, |id| self.is_connect_packet(id))
+            || self.pending_write_completion_operations.iter().any(|id| self.is_connect_packet(*id))
     }
 
     fn handle_network_event_incoming_data(&mut self, context: &mut NetworkEventContext, data: &[u8]) -> GneissResult<()> {
